@@ -4,6 +4,7 @@ import ast
 from .. import util
 from ..interp import Interp, Path, exc_value, is_exc, show, strip_sites, subterms, NONE, abs_value
 from ..report import Undecided, AnchorMissing
+from . import common
 
 SELF = ("sym", "self")
 TRIO_RUNNER = "cobald.daemon.runners.trio_runner:TrioRunner"
@@ -121,5 +122,474 @@ def send_after_close(chk):
     return attr
 
 
+
+def meta_register(chk):
+    """O3.1 / O3.2 in MetaRunner.register_payload, _unqueue_payloads, _launch_runners"""
+    prog = chk.program
+    fi = prog.method(META, "register_payload")
+    name = fi.qual
+    a = fi.node.args
+    if a.vararg is None or "flavour" not in [x.arg for x in a.kwonlyargs + a.args]:
+        chk.undecided("O3.1", name, "signature is not (*payloads, flavour)", node=fi.node)
+        return
+    PAYLOADS = ("sym", a.vararg.arg)
+    FL = ("sym", "flavour")
+    RUNNERS = ("attr", SELF, "_runners")
+    QUEUES = ("attr", SELF, "_runner_queues")
+    KEYERR = exc_value("ext:builtins.KeyError", "no-runner")
+    ok = True
+    for have_runner in (True, False):
+        for running in (True, False):
+
+            def sub_hook(it, path, base, idx, node, have_runner=have_runner):
+                if base == RUNNERS:
+                    if idx != FL:
+                        path.ev("wrong-key", idx)
+                    return [("value", ("sym", "the_runner"))] if have_runner else [("raise", KEYERR)]
+                return None
+
+            def decide(it, path, term, running=running):
+                if term[0] == "call" and term[1][0] == "attr" and term[1][2] == "is_set":
+                    return running
+                return None
+
+            outs = Interp(prog, fi, sub_hook=sub_hook, decide=decide, unroll=2).run()
+            chk.count(len(outs))
+            label = "runner %s, runtime %s" % ("exists" if have_runner else "missing", "running" if running else "not running")
+            for o in outs:
+                evs = o.path.events
+                if any(e[0] == "wrong-key" for e in evs):
+                    chk.bad("O3.2", name, "the runner is looked up under %s instead of the requested flavour" % show([e[1] for e in evs if e[0] == "wrong-key"][0]), node=fi.node, stmt="runner-key", input=label)
+                    ok = False
+                forks = [e for e in evs if e[0] in ("branch", "fork") and e[-1] == "forked"]
+                if forks:
+                    chk.bad("O3.1", name, "whether a payload is registered depends on %s: payloads can be lost or duplicated" % show(forks[0][1]), node=fi.node, stmt="extra-condition %s" % show(strip_sites(forks[0][1]))[:80], input=label)
+                    ok = False
+                    continue
+                regs = [e[1] for e in evs if e[0] == "call" and e[1][1] == ("attr", ("sym", "the_runner"), "register_payload")]
+                queued = [e[1] for e in evs if e[0] == "call" and e[1][1][0] == "attr" and e[1][1][2] in ("extend", "append", "insert", "add") and QUEUES in list(subterms(e[1][1][1]))]
+                if have_runner:
+                    iters = [e for e in evs if e[0] == "loop-iter"]
+                    if o.kind not in ("normal", "return") or queued:
+                        chk.bad("O3.1", name, "with a live runner the payloads are %s" % ("queued instead of registered" if queued else "not registered (%s)" % o.kind), node=fi.node, stmt="live-not-registered", input=label)
+                        ok = False
+                        continue
+                    if len(regs) != len(iters):
+                        chk.bad("O3.1", name, "%d payloads but %d registrations with the runner" % (len(iters), len(regs)), node=fi.node, stmt="register-count", input=label)
+                        ok = False
+                        continue
+                    for k, r in enumerate(regs):
+                        if list(r[2]) != [("item", PAYLOADS, k)] or r[3]:
+                            chk.bad("O3.1", name, "registration %d hands %s to the runner instead of payload %d" % (k, [show(x) for x in r[2]], k), node=fi.node, stmt="register-arg", input=label)
+                            ok = False
+                elif running:
+                    if o.kind != "raise":
+                        chk.bad("O3.1", name, "a flavour without a runner is silently accepted while the runtime is running: the payload is queued forever", node=fi.node, stmt="unknown-flavour-silent", input=label)
+                        ok = False
+                else:
+                    if o.kind not in ("normal", "return") or regs:
+                        chk.bad("O3.1", name, "before start the payloads are not queued (%s)" % o.kind, node=fi.node, stmt="not-queued", input=label)
+                        ok = False
+                        continue
+                    if len(queued) != 1:
+                        chk.bad("O3.1", name, "before start the payloads are queued %d times" % len(queued), node=fi.node, stmt="queue-count", input=label)
+                        ok = False
+                        continue
+                    q = queued[0]
+                    if q[1][2] != "extend" or list(q[2]) != [PAYLOADS]:
+                        chk.bad(
+                            "O3.1",
+                            name,
+                            "before start the queue receives %s(%s) instead of exactly all given payloads: payloads are filtered, de-duplicated or transformed, so some are never started" % (q[1][2], ", ".join(show(strip_sites(x)) for x in q[2])),
+                            node=fi.node,
+                            stmt="queue-filtered",
+                            input=label,
+                        )
+                        ok = False
+                    qsrc = q[1][1]
+                    if not (qsrc[0] == "call" and qsrc[1] == ("attr", QUEUES, "setdefault") and qsrc[2] and qsrc[2][0] == FL) and not (qsrc[0] == "sub" and qsrc[1] == QUEUES and qsrc[2] == FL):
+                        chk.bad("O3.2", name, "the payloads are queued under %s instead of the requested flavour" % show(strip_sites(qsrc)), node=fi.node, stmt="queue-key", input=label)
+                        ok = False
+    if ok:
+        chk.ok("O3.1", name, "live runner: each payload registered exactly once, in order; before start: all payloads queued under the flavour; unknown flavour while running: raises", node=fi.node, input="runner exists/missing x running/not")
+    # ---- the flush
+    uq = prog.method(META, "_unqueue_payloads")
+    outs = Interp(prog, uq, unroll=2, decide=lambda it, p, t: True if (t[0] == "call" and t[1][0] == "attr" and t[1][2] == "is_set") else None).run()
+    chk.count(len(outs))
+    ok = True
+    for o in outs:
+        if o.kind not in ("normal", "return"):
+            continue
+        evs = o.path.events
+        iters = [e for e in evs if e[0] == "loop-iter"]
+        regs = [(i, e[1]) for i, e in enumerate(evs) if e[0] == "call" and e[1][1] == ("attr", SELF, "register_payload")]
+        if len(regs) != len(iters):
+            chk.bad("O3.1", uq.qual, "%d queues but %d re-registrations" % (len(iters), len(regs)), node=uq.node, stmt="flush-count")
+            ok = False
+            continue
+        for k, (i, r) in enumerate(regs):
+            item = None
+            for e in evs:
+                if e[0] == "bind" and e[2][0] == "proj" and e[2][1][0] == "item" and e[2][1][2] == k:
+                    item = e[2][1]
+            if item is None:
+                chk.undecided("O3.1", uq.qual, "flush loop target is not (flavour, queue)", node=uq.node)
+                return
+            key, queue = ("proj", item, 0), ("proj", item, 1)
+            if list(r[2]) != [("star", queue)]:
+                chk.bad("O3.1", uq.qual, "a queue is re-registered as %s instead of all of its payloads" % [show(x) for x in r[2]], node=uq.node, stmt="flush-args")
+                ok = False
+            if dict((kk, v) for kk, v in r[3] if kk).get("flavour") != key:
+                chk.bad("O3.2", uq.qual, "a queue is re-registered under flavour %s instead of its own key" % show(dict((kk, v) for kk, v in r[3] if kk).get("flavour")), node=uq.node, stmt="flush-flavour")
+                ok = False
+            if strip_sites(item[1]) != ("call", ("attr", ("attr", SELF, "_runner_queues"), "items"), (), ()):
+                chk.bad("O3.1", uq.qual, "the flush ranges over %s" % show(item[1]), node=uq.node, stmt="flush-domain")
+                ok = False
+        cleared = [e for e in evs if e[0] == "call" and e[1][1] == ("attr", ("attr", SELF, "_runner_queues"), "clear")]
+        if iters and not cleared and not all(any(e[0] == "call" and e[1][1][0] == "attr" and e[1][1][2] == "clear" for e in evs) for _ in [0]):
+            chk.bad("O3.1", uq.qual, "flushed payloads stay queued: they are started again on the next run", node=uq.node, stmt="flush-not-cleared")
+            ok = False
+    mr = prog.method(META, "_manage_runners")
+    n_flush = len([n for n in ast.walk(mr.node) if isinstance(n, ast.Call) and util.dotted(n.func) == "self._unqueue_payloads"])
+    if n_flush != 1:
+        chk.bad("O3.1", mr.qual, "the queue is flushed %d times per run (required: exactly once)" % n_flush, node=mr.node, stmt="flush-per-run")
+        ok = False
+    if ok:
+        chk.ok("O3.1", uq.qual, "each queue is re-registered once, completely, under its own flavour, then cleared; one flush per run", node=uq.node)
+    # ---- runners keyed by their class's flavour
+    launch = prog.method(META, "_launch_runners")
+    ok = False
+    for n in ast.walk(launch.node):
+        if isinstance(n, ast.Assign):
+            for t in n.targets:
+                if isinstance(t, ast.Subscript) and util.dotted(t.value) == "self._runners":
+                    chk.count()
+                    key = util.unparse(t.slice)
+                    ctor = util.unparse(n.value.func) if isinstance(n.value, ast.Call) else None
+                    if ctor and key == ctor + ".flavour":
+                        ok = True
+                    else:
+                        chk.bad("O3.2", launch.qual, "a runner is stored under %s, not under its own class's flavour" % key, node=n, stmt="runner-key %s" % key)
+                        ok = None
+    if ok:
+        chk.ok("O3.2", launch.qual, "every runner is keyed by its class's flavour", node=launch.node)
+    elif ok is False:
+        chk.undecided("O3.2", launch.qual, "runner mapping construction not recognised", node=launch.node)
+
+
+def runner_forwards(chk):
+    """O3.1: each runner forwards a registered payload exactly once; the monitor invokes it once"""
+    prog = chk.program
+    from . import c01
+
+    for cls in util.concrete_runners(prog):
+        reg = prog.lookup_method(cls, "register_payload")
+        pay = ("sym", reg.params()[0])
+        facts = common.runner_facts(prog, cls)
+        ch = facts.get("submit_channel")
+        fl = prog.resolve(cls.module, cls.class_attrs.get("flavour"))
+
+        def forward_kind(ct):
+            if ct[0] != "call":
+                return None
+            f = ct[1]
+            flat = list(ct[2]) + [v for _k, v in ct[3]]
+            inner = []
+            for x in flat:
+                if x[0] == "tuple":
+                    inner.extend(x[1])
+                if x[0] == "call":
+                    inner.extend(x[2])
+            if pay not in flat + inner:
+                return None
+            if f[0] == "attr" and f[2] in ("call_soon_threadsafe", "create_task", "start_soon", "send_nowait", "send"):
+                return f[2]
+            if f == ("glob", "ext:threading.Thread"):
+                return "Thread"
+            if f == FROM_THREAD_RUN:
+                return "from_thread.run"
+            return None
+
+        scenarios = [("plain", None, None)]
+        if ch:
+            scenarios = [("cross-thread send succeeds", None, None), ("called inside the trio thread", BARE_RUNTIME, None)]
+        ok = True
+        for label, first, second in scenarios:
+
+            def hook(it, path, ct, node, first=first):
+                if ct[0] == "call" and ct[1] == FROM_THREAD_RUN and first is not None:
+                    return [("raise", first)]
+                return None
+
+            outs = Interp(prog, reg, call_hook=hook).run()
+            chk.count(len(outs))
+            for o in outs:
+                if o.kind == "raise":
+                    chk.bad("O3.1", reg.qual, "register_payload raises %s (%s)" % (show(o.value), label), node=reg.node, stmt="register-raises", input=label)
+                    ok = False
+                    continue
+                fw = [forward_kind(e[1]) for e in o.path.events if e[0] == "call" and forward_kind(e[1])]
+                raised = [e for e in o.path.events if e[0] == "raised-at-call"]
+                n_ok = len(fw) - len(raised)
+                if n_ok != 1:
+                    chk.bad("O3.1", reg.qual, "a registered payload is forwarded %d times (%s) on a path that is not a shutdown discard (%s)" % (n_ok, fw, label), node=reg.node, stmt="forward-count %d" % n_ok, input=label)
+                    ok = False
+                if fw and fw[-1] == "Thread":
+                    started = [e for e in o.path.events if e[0] == "call" and e[1][1][0] == "attr" and e[1][1][2] == "start"]
+                    if len(started) != 1:
+                        chk.bad("O3.1", reg.qual, "the payload thread is started %d times" % len(started), node=reg.node, stmt="thread-start")
+                        ok = False
+        # intermediate hops and the monitor
+        monitors, bad = c01.payload_flow(chk, cls)
+        for mname in monitors:
+            m = prog.lookup_method(cls, mname)
+            pp = None
+            for n in ast.walk(m.node):
+                if isinstance(n, ast.Call) and isinstance(n.func, ast.Name) and n.func.id in m.params():
+                    pp = n.func.id
+            inv_ok = True
+            for o in Interp(prog, m, inline=lambda f, ct: False).run():
+                inv = [e[1] for e in o.path.events if e[0] == "call" and e[1][1] == ("sym", pp)]
+                chk.count()
+                if len(inv) != 1 or inv[0][2] or inv[0][3]:
+                    chk.bad("O3.1", m.qual, "the monitor invokes the payload %d times%s (required: exactly once, without arguments)" % (len(inv), " with arguments" if inv and (inv[0][2] or inv[0][3]) else ""), node=m.node, stmt="invoke-count")
+                    inv_ok = ok = False
+                    break
+        for fis in cls.methods.values():
+            for f in fis:
+                if f is reg or f.name in monitors or f.name in ("run_payload",):
+                    continue
+                if not any(isinstance(n, ast.Attribute) and n.attr in ("create_task", "start_soon") for n in ast.walk(f.node)):
+                    continue
+                for o in Interp(prog, f, unroll=1).run():
+                    spawns = [e[1] for e in o.path.events if e[0] == "call" and e[1][1][0] == "attr" and e[1][1][2] in ("create_task", "start_soon")]
+                    iters = [e for e in o.path.events if e[0] == "loop-iter"]
+                    chk.count()
+                    want = len(iters) if iters or any(isinstance(n, (ast.AsyncFor, ast.For)) for n in ast.walk(f.node)) else 1
+                    if o.kind in ("normal", "return", "cut") and len(spawns) != want:
+                        chk.bad("O3.1", f.qual, "a received payload is spawned %d times (required: %d)" % (len(spawns), want), node=f.node, stmt="spawn-count")
+                        ok = False
+        if ok:
+            chk.ok("O3.1", reg.qual, "a registered payload is forwarded exactly once (or discarded during shutdown) and invoked exactly once by %s" % sorted(monitors), node=reg.node)
+
+
+def adopt_rules(chk):
+    prog = chk.program
+    adopt = prog.method(SERVICE_RUNNER, "adopt")
+    common.binding_rule(chk, "O3.3", adopt, forward_attr="register_payload")
+    # O3.4: returns nothing, blocks on nothing
+    rule = "O3.4"
+    ok = True
+    for fi in (adopt, prog.method(META, "register_payload")):
+        for n in ast.walk(fi.node):
+            if isinstance(n, ast.Return) and n.value is not None and not (isinstance(n.value, ast.Constant) and n.value.value is None):
+                chk.bad(rule, fi.qual, "%s returns a value (%s): adopt must return None" % (fi.name, util.unparse(n.value)), node=n, stmt="returns-value")
+                ok = False
+            if isinstance(n, ast.Call) and isinstance(n.func, ast.Attribute) and n.func.attr in ("run_payload", "result", "join", "wait", "execute"):
+                chk.bad(rule, fi.qual, "%s reaches the blocking primitive .%s(): adopt must not wait for the payload" % (fi.name, n.func.attr), node=n, stmt="blocks %s" % n.func.attr)
+                ok = False
+            chk.count()
+    if ok:
+        chk.ok(rule, adopt.qual, "adopt and MetaRunner.register_payload return nothing and reach no blocking result primitive", node=adopt.node)
+
+
+def service_typestate(chk):
+    prog = chk.program
+    rule = "O3.6"
+    unit = prog.cls(SERVICE_UNIT)
+    # who writes _started
+    ok = True
+    n = 0
+    for c in prog.classes.values():
+        for fis in c.methods.values():
+            for f in fis:
+                for node in ast.walk(f.node):
+                    if isinstance(node, (ast.Assign, ast.AugAssign)):
+                        tg = node.targets if isinstance(node, ast.Assign) else [node.target]
+                        for t in tg:
+                            if isinstance(t, ast.Attribute) and t.attr == "_started":
+                                n += 1
+                                chk.count()
+                                val = node.value.value if isinstance(node.value, ast.Constant) else "?"
+                                if c is unit and f.name == "__init__" and val is False:
+                                    continue
+                                if c is unit and f.name == "start" and val is True:
+                                    continue
+                                chk.bad(rule, f.qual, "the started flag of a service unit is written (%s) in %s: a started service can be started again, or an unstarted one skipped" % (util.unparse(node.value), f.qual.split(":")[-1]), node=node, stmt="started-write in %s" % f.name)
+                                ok = False
+    if n < 2:
+        chk.bad(rule, unit.qual, "the started flag is not initialised to False in __init__ and set to True in start", node=unit.node, stmt="started-writes")
+        ok = False
+    start = prog.method(SERVICE_UNIT, "start")
+    for alive in (True, False):
+        outs = Interp(prog, start, decide=lambda it, p, t, alive=alive: (not alive) if t[0] == "isnone" else None).run()
+        for o in outs:
+            chk.count()
+            evs = o.path.events
+            st = [e for e in evs if e[0] == "store" and e[1] == ("attr", SELF, "_started")]
+            regs = [e[1] for e in evs if e[0] == "call" and e[1][1][0] == "attr" and e[1][1][2] == "register_payload"]
+            if alive:
+                if len(regs) != 1 or not st or st[-1][2] != ("const", True):
+                    chk.bad(rule, start.qual, "starting a live service registers its run method %d times and %s the started flag" % (len(regs), "sets" if st else "does not set"), node=start.node, stmt="start-live")
+                    ok = False
+                    continue
+                r = regs[0]
+                kw = dict((k, v) for k, v in r[3] if k)
+                if kw.get("flavour") != ("attr", SELF, "flavour"):
+                    chk.bad("O3.2", start.qual, "the service is registered under flavour %s instead of the unit's own flavour" % show(kw.get("flavour")), node=start.node, stmt="service-flavour")
+                    ok = False
+                if not (r[2] and r[2][0][0] == "attr" and r[2][0][2] == "run"):
+                    chk.bad(rule, start.qual, "the registered payload is %s, not the service's run method" % [show(x) for x in r[2]], node=start.node, stmt="service-payload")
+                    ok = False
+            else:
+                if regs:
+                    chk.bad(rule, start.qual, "a collected service is registered", node=start.node, stmt="start-dead")
+                    ok = False
+    run_g = prog.pick(unit.methods.get("running", []), "getter")
+    if run_g is not None:
+        outs = Interp(prog, run_g).run()
+        if not (len(outs) == 1 and outs[0].kind == "return" and outs[0].value == ("attr", SELF, "_started")):
+            chk.bad(rule, run_g.qual, "`running` does not report the started flag", node=run_g.node, stmt="running")
+            ok = False
+    init = prog.method(SERVICE_UNIT, "__init__")
+    outs = Interp(prog, init).run()
+    for o in outs:
+        if o.kind in ("normal", "return"):
+            chk.count()
+            st = {e[1][2]: e[2] for e in o.path.events if e[0] == "store" and e[1][1] == SELF}
+            added = [e for e in o.path.events if e[0] == "call" and e[1][1][0] in ("attr", "glob") and show(e[1][1]).endswith("__active_units__.add") and list(e[1][2]) == [SELF]]
+            if len(added) != 1:
+                chk.bad(rule, init.qual, "a new service unit is not added to the active set on every path: its service is never started", node=init.node, stmt="unit-not-registered")
+                ok = False
+            if st.get("flavour") != ("sym", "flavour"):
+                chk.bad("O3.2", init.qual, "the unit stores flavour %s instead of the requested one" % show(st.get("flavour")), node=init.node, stmt="unit-flavour")
+                ok = False
+    # the replaced __new__ creates exactly one unit per instance with the decorator's flavour
+    newf = prog.functions.get("cobald.daemon.runners.service:service.service_unit_decorator.__new_service__")
+    if newf is None:
+        chk.undecided(rule, "service", "replaced __new__ not found", node=None)
+        ok = False
+    else:
+        for o in Interp(prog, newf).run():
+            chk.count()
+            if o.kind != "return":
+                continue
+            units = [e[1] for e in o.path.events if e[0] == "call" and e[1][1] == ("glob", SERVICE_UNIT)]
+            if len(units) != 1:
+                chk.bad(rule, newf.qual, "constructing a service instance creates %d service units (required: exactly one)" % len(units), node=newf.node, stmt="unit-count")
+                ok = False
+                continue
+            if list(units[0][2])[1:] != [("sym", "flavour")] or units[0][2][0] != o.value:
+                chk.bad("O3.2", newf.qual, "the unit is created as ServiceUnit(%s)" % ", ".join(show(x) for x in units[0][2]), node=newf.node, stmt="unit-args")
+                ok = False
+            stored = [e for e in o.path.events if e[0] == "store" and e[1][0] == "attr" and e[1][1] == o.value and e[2] == units[0]]
+            if not stored:
+                chk.bad(rule, newf.qual, "the unit is not stored on the instance: nothing keeps it alive, so the service is never started", node=newf.node, stmt="unit-not-stored")
+                ok = False
+    if ok:
+        chk.ok(rule, unit.qual, "started flag written only in __init__ (False) and start (True, exactly when the run method is registered under the unit's flavour); one stored unit per service instance, always added to the active set", node=unit.node)
+
+
+def sweep_rules(chk):
+    prog = chk.program
+    rule = "O3.7"
+    cls = prog.cls(SERVICE_RUNNER)
+    acc = prog.method(SERVICE_RUNNER, "accept")
+    outs = Interp(prog, acc).run()
+    sweep_name = None
+    ok = True
+    for o in outs:
+        evs = o.path.events
+        ad = [(i, e[1]) for i, e in enumerate(evs) if e[0] == "call" and e[1][1] == ("attr", SELF, "adopt")]
+        rn = [i for i, e in enumerate(evs) if e[0] == "call" and e[1][1] == ("attr", ("attr", SELF, "_meta_runner"), "run")]
+        chk.count()
+        if len(ad) != 1 or len(rn) != 1 or ad[0][0] > rn[0]:
+            chk.bad(rule, acc.qual, "accept does not adopt the service sweep exactly once before running the meta runner", node=acc.node, stmt="accept-order")
+            ok = False
+            continue
+        c = ad[0][1]
+        if dict((k, v) for k, v in c[3] if k).get("flavour") != ("glob", "ext:trio"):
+            chk.undecided(rule, acc.qual, "the sweep is adopted with an unexpected flavour", node=acc.node)
+            ok = False
+        if c[2] and c[2][0][0] == "attr" and c[2][0][1] == SELF:
+            sweep_name = c[2][0][2]
+    if sweep_name is None:
+        chk.undecided(rule, acc.qual, "sweep coroutine not identified", node=acc.node)
+        return
+    sw = prog.lookup_method(cls, sweep_name)
+    loop = next((n for n in ast.walk(sw.node) if isinstance(n, ast.While)), None)
+    step_name = None
+    if loop is None:
+        chk.bad(rule, sw.qual, "the sweep does not loop: services created after start are never started", node=sw.node, stmt="no-loop")
+        return
+    it = Interp(prog, sw, unroll=1)
+    for o in it.exec_block(loop.body, Path()):
+        evs = o.path.events
+        steps = [(i, e[1]) for i, e in enumerate(evs) if e[0] == "call" and e[1][1][0] == "attr" and e[1][1][1] == SELF and e[1][1][2] != sweep_name]
+        sleeps = [i for i, e in enumerate(evs) if e[0] == "call" and e[1][1] == ("glob", "ext:trio.sleep")]
+        chk.count()
+        if len(steps) != 1 or not sleeps or steps[0][0] > sleeps[0]:
+            chk.bad(rule, sw.qual, "one polling cycle does not perform the adopt step exactly once before sleeping (%d steps)%s" % (len(steps), "; condition: " + "; ".join(show(e[1]) for e in evs if e[0] == "branch" and e[4] == "forked") if any(e[0] == "branch" and e[4] == "forked" for e in evs) else ""), node=loop, stmt="cycle-step")
+            ok = False
+        elif steps:
+            step_name = steps[0][1][1][2]
+    if step_name is None:
+        return
+    st = prog.lookup_method(cls, step_name)
+    # the adopt step: every path examines every unit; not running => started exactly once with the meta runner
+    seen = set()
+    for running in (True, False):
+
+        def decide(it, path, term, running=running):
+            if term[0] == "attr" and term[2] == "running" and term[1][0] == "item":
+                return running
+            if term[0] == "truthy" and term[1][0] == "attr" and term[1][2] == "running":
+                return running
+            return None
+
+        outs = Interp(prog, st, decide=decide, unroll=1).run()
+        chk.count(len(outs))
+        for o in outs:
+            evs = o.path.events
+            loops = [e for e in evs if e[0] in ("loop-iter", "loop-exit", "loop-cut")]
+            if o.kind in ("normal", "return") and not loops:
+                chk.bad(
+                    "O3.6",
+                    st.qual,
+                    "the adopt step can finish without looking at the service units (condition: %s): a service created while that condition holds is never started" % "; ".join("%s is %s" % (show(e[1]), e[2]) for e in evs if e[0] == "branch"),
+                    node=st.node,
+                    stmt="units-not-examined",
+                )
+                ok = False
+                continue
+            iters = [e for e in evs if e[0] == "loop-iter"]
+            if len(iters) != 1:
+                continue
+            unit = [e[2] for e in evs if e[0] == "bind" and e[2][0] == "item"][0]
+            if "units" not in show(unit[1]):
+                chk.bad("O3.6", st.qual, "the adopt step ranges over %s instead of all defined units" % show(unit[1]), node=st.node, stmt="units-domain")
+                ok = False
+            starts = [e[1] for e in evs if e[0] == "call" and e[1][1] == ("attr", unit, "start")]
+            extra = [e for e in evs if e[0] == "branch" and e[4] == "forked"]
+            if extra:
+                chk.bad("O3.6", st.qual, "whether a unit is started depends on %s" % show(extra[0][1]), node=st.node, stmt="start-extra-condition")
+                ok = False
+                continue
+            seen.add((running, len(starts)))
+            if starts and list(starts[0][2]) != [("attr", SELF, "_meta_runner")]:
+                chk.bad("O3.6", st.qual, "units are started with %s instead of the runtime's meta runner" % [show(x) for x in starts[0][2]], node=st.node, stmt="start-arg")
+                ok = False
+    if seen != {(True, 0), (False, 1)}:
+        chk.bad("O3.6", st.qual, "adopt step decisions: %s (required: a unit is started exactly once iff it is not running yet)" % sorted(seen), node=st.node, stmt="start-decisions", input=sorted(seen))
+        ok = False
+    if ok:
+        chk.ok(rule, sw.qual, "accept adopts the sweep before running; every cycle runs the adopt step before sleeping; the step examines every unit and starts exactly those not running", node=sw.node)
+
+
 def run(chk):
     chk.guard("O3.5", TRIO_RUNNER, send_after_close, chk)
+    chk.guard("O3.1", META, meta_register, chk)
+    chk.guard("O3.1", "<runners>", runner_forwards, chk)
+    chk.guard("O3.3", SERVICE_RUNNER + ".adopt", adopt_rules, chk)
+    chk.guard("O3.6", SERVICE_UNIT, service_typestate, chk)
+    chk.guard("O3.7", SERVICE_RUNNER, sweep_rules, chk)
